@@ -41,6 +41,9 @@ def run(pid, tier, seed):
     scale = float(os.environ.get("VERIF_SCALE", "1"))
     ctx = core.Ctx(pid, tier, seed, scale)
     known = load_known()
+    import glob
+    for old in glob.glob(os.path.join(core.VERIF, "replays", f"{pid}-{tier}-{seed}-*.json")):
+        os.remove(old)
 
     # ---- 2. proof obligations -------------------------------------------
     theorems = list(mod.THEOREMS)
